@@ -1,6 +1,7 @@
 package seqx
 
 import (
+	"bytes"
 	"encoding/base64"
 	"encoding/hex"
 	"encoding/json"
@@ -288,11 +289,15 @@ func ifaceExp(v interface{}) Exp {
 	if !InterfaceMarshalDefault {
 		return Any()
 	}
-	b, err := zerolog.InterfaceMarshalFunc(v)
-	if err != nil {
+	// the documented default, written out here so that the reference does not lean on the code under test:
+	// encoding/json with HTML escaping off (compact, validated), without the trailing newline
+	var buf bytes.Buffer
+	enc := json.NewEncoder(&buf)
+	enc.SetEscapeHTML(false)
+	if err := enc.Encode(v); err != nil {
 		return S(fmt.Sprintf("marshaling error: %v", err))
 	}
-	return Raw(string(b))
+	return Raw(strings.TrimSuffix(buf.String(), "\n"))
 }
 
 // InterfaceMarshalDefault is false while a deviating InterfaceMarshalFunc is installed.
